@@ -8,6 +8,8 @@
 (*   Poll      one completed poll of the reply stream: a receive_reply on     *)
 (*             the connection, then the index / done bookkeeping              *)
 (*   After     a plain receive_reply on the connection after the stream ended *)
+(*   Abandon   the consumer drops the stream before it ended; the frames it did *)
+(*             not take are then received through the connection itself        *)
 (* The inbound side is abstracted to a queue of frames (ReadConn/Framing      *)
 (* cover fragmentation); what matters here is how many frames the stream      *)
 (* takes from that queue.                                                     *)
@@ -37,8 +39,11 @@ VARIABLES calls,     \* Seq(Kinds)
           reads,     \* number of receive operations issued by the stream
           bufItems,  \* ghost: frames currently lying in the receive buffer (consumed or not)
           live,      \* ghost: yielded frames the consumer still holds
-          clobbered  \* ghost: a held item's bytes were overwritten
-vars == <<calls, inq, batch, wire, phase, replyCount, idx, done, yielded, afterGot, reads, bufItems, live, clobbered>>
+          clobbered, \* ghost: a held item's bytes were overwritten
+          dropped,   \* the consumer abandoned the stream before it ended
+          script     \* ghost: everything the server sent, in order
+vars == <<calls, inq, batch, wire, phase, replyCount, idx, done, yielded, afterGot, reads, bufItems, live, clobbered,
+          dropped, script>>
 
 Frame(c, e, k) == [call |-> c, err |-> e, cont |-> k]
 
@@ -66,11 +71,12 @@ Init == /\ calls \in UNION {[1..n -> Kinds] : n \in 1..MaxCalls}
         /\ done = (IF DoneInit = "count" THEN replyCount = 0 ELSE FALSE)
         /\ yielded = <<>> /\ afterGot = <<>> /\ reads = 0
         /\ bufItems = <<>> /\ live = {} /\ clobbered = FALSE
+        /\ dropped = FALSE /\ script = inq
 
 Send == /\ phase = "build"
         /\ wire' = Append(wire, [i \in 1..Len(calls) |-> i])     \* one flush of everything enqueued
         /\ phase' = "sent"
-        /\ UNCHANGED <<calls, inq, batch, replyCount, idx, done, yielded, afterGot, reads, bufItems, live, clobbered>>
+        /\ UNCHANGED <<calls, inq, batch, replyCount, idx, done, yielded, afterGot, reads, bufItems, live, clobbered, dropped, script>>
 
 \* One receive on the connection: if no buffered frame is left, a transport read brings the next
 \* n frames (overwriting the buffer from its start: the previous content was fully consumed).
@@ -87,7 +93,8 @@ PollStream ==
     /\ phase = "sent"
     /\ IF done
        THEN /\ phase' = "ended"
-            /\ UNCHANGED <<calls, inq, batch, wire, replyCount, idx, done, yielded, afterGot, reads, bufItems, live, clobbered>>
+            /\ UNCHANGED <<calls, inq, batch, wire, replyCount, idx, done, yielded, afterGot, reads, bufItems, live, clobbered,
+                           dropped, script>>
        ELSE /\ inq # <<>>
             \* without HoldItems the previous item was dropped before this poll
             /\ \E n \in 1..Len(inq) : Receive(n, IF HoldItems THEN live ELSE {})
@@ -98,7 +105,7 @@ PollStream ==
                   /\ done' = (idx1 >= replyCount)
                   /\ live' = IF HoldItems THEN live \cup {Len(yielded) + 1} ELSE {Len(yielded) + 1}
             /\ reads' = reads + 1
-            /\ UNCHANGED <<calls, wire, phase, replyCount, afterGot>>
+            /\ UNCHANGED <<calls, wire, phase, replyCount, afterGot, dropped, script>>
 
 \* the consumer drops the stream; later exchanges use the connection directly
 After ==
@@ -107,9 +114,15 @@ After ==
     /\ \E n \in 1..Len(inq) : Receive(n, {})
     /\ afterGot' = Append(afterGot, Head(inq))
     /\ phase' = "after" /\ live' = {}
-    /\ UNCHANGED <<calls, wire, replyCount, idx, done, yielded, reads>>
+    /\ UNCHANGED <<calls, wire, replyCount, idx, done, yielded, reads, dropped, script>>
 
-Next == Send \/ PollStream \/ After
+\* the consumer gives up before the stream ended (buffered frames stay buffered: batch is kept)
+Abandon ==
+    /\ phase = "sent" /\ ~done
+    /\ phase' = "ended" /\ dropped' = TRUE /\ live' = {}
+    /\ UNCHANGED <<calls, inq, batch, wire, replyCount, idx, done, yielded, afterGot, reads, bufItems, clobbered, script>>
+
+Next == Send \/ PollStream \/ After \/ Abandon
 Spec == Init /\ [][Next]_vars
 
 \* ---- properties -------------------------------------------------------------------
@@ -118,10 +131,12 @@ Owed == LET all == yielded \o afterGot \o inq IN SelectSeq(all, LAMBDA f : f.cal
 NotOwed == LET all == yielded \o afterGot \o inq IN SelectSeq(all, LAMBDA f : f.call = 0)
 OneWriteInOrder == phase # "build" => wire = << [i \in 1..Len(calls) |-> i] >>
 YieldsPrefixOfOwed == \A i \in 1..Len(yielded) : i <= Len(Owed) /\ yielded[i] = Owed[i]
-EndsExactly == phase \in {"ended", "after"} => yielded = Owed      \* all owed, nothing from a later exchange
+EndsExactly == (phase \in {"ended", "after"} /\ ~dropped) => yielded = Owed   \* all owed, nothing from a later exchange
 NoReadWhenNothingOwed == replyCount = 0 => reads = 0
-LaterExchangeIntact == \A i \in 1..Len(afterGot) : afterGot[i].call = 0
-ChainInv == OneWriteInOrder /\ YieldsPrefixOfOwed /\ EndsExactly /\ NoReadWhenNothingOwed /\ LaterExchangeIntact
+LaterExchangeIntact == ~dropped => \A i \in 1..Len(afterGot) : afterGot[i].call = 0
+\* nothing is lost, duplicated or reordered between the stream and the connection, abandoned or not
+Conserved == yielded \o afterGot \o inq = script
+ChainInv == OneWriteInOrder /\ YieldsPrefixOfOwed /\ EndsExactly /\ NoReadWhenNothingOwed /\ LaterExchangeIntact /\ Conserved
 \* C11
 NoLiveBorrowClobbered == ~clobbered
 =============================================================================
